@@ -83,8 +83,10 @@ Sim(o, k, s) ==
                             /\ o.nbs[k][i] = Len(s.val[ins[i]])                          \* all of its buffers
                             /\ o.val[k][i] = s.val[ins[i]][1][1]                         \* current content
            r   == NodeStep(desc[n], ver[n], [i \in 1..Len(ins) |-> IF ins[i] = -1 THEN << >> ELSE s.val[ins[i]]], s.val[n], 1)
-       IN IF okk THEN Sim(o, k + 1, [ok |-> TRUE, val |-> [s.val EXCEPT ![n] = r.out]])
-          ELSE [ok |-> FALSE, val |-> s.val]
+           \* the invocation that panics was handed its inputs (judged like any other) but wrote nothing
+           aborts == "abort" \in DOMAIN s /\ s.abort = k
+       IN IF okk THEN Sim(o, k + 1, [s EXCEPT !.val = IF aborts THEN s.val ELSE [s.val EXCEPT ![n] = r.out]])
+          ELSE [s EXCEPT !.ok = FALSE]
 
 ProcessResult ==      \* [ok, val]
   LET o == Ev.o IN
@@ -95,6 +97,20 @@ ProcessResult ==      \* [ok, val]
      /\ Len(o.nbs) = Len(o.order) /\ Len(o.val) = Len(o.order)
   THEN LET s == Sim(o, 1, [ok |-> TRUE, val |-> val])
        IN IF s.ok /\ BufsMatch(o.bufs, g, s.val, VerAfter(g, ver, o.order)) THEN s
+          ELSE [ok |-> FALSE, val |-> val]
+  ELSE [ok |-> FALSE, val |-> val]
+
+\* process{out, abort: k}: the k-th node invoked panics (after looking at its inputs, before writing); the caller
+\* catches the panic and goes on using the same processor.  If the traversal has fewer than k invocations nothing aborts.
+Aborting == Ev.ev = "process" /\ "abort" \in DOMAIN Ev.a /\ Ev.a.abort > 0
+            /\ g.n > 0 /\ Ev.a.out \in g.live /\ Ev.a.abort <= Cardinality(Processed(g, Ev.a.out))
+AbortResult ==      \* [ok, val]
+  LET o == Ev.o  k == Ev.a.abort IN
+  IF /\ Ev.r.k = "panic" /\ o.exact
+     /\ Len(o.order) = k /\ PrefixOK(g, Ev.a.out, o.order)
+     /\ Len(o.src) = k /\ Len(o.ptr) = k /\ Len(o.cnt) = k /\ Len(o.nbs) = k /\ Len(o.val) = k
+  THEN LET s == Sim(o, 1, [ok |-> TRUE, val |-> val, abort |-> k])
+       IN IF s.ok /\ BufsMatch(o.bufs, g, s.val, VerAfter(g, ver, SubSeq(o.order, 1, k - 1))) THEN s
           ELSE [ok |-> FALSE, val |-> val]
   ELSE [ok |-> FALSE, val |-> val]
 
@@ -116,8 +132,16 @@ TGraph ==
             /\ seen' = {} /\ skip' = FALSE
        ELSE /\ PrintT(<< "REJECT", l, Ev.ev >>)
             /\ skip' = TRUE /\ g' = NoGraph /\ UNCHANGED << desc, val, ver, seen >>
+TAbort ==
+  /\ Consume /\ Aborting /\ ~skip
+  /\ LET s == AbortResult IN
+     IF s.ok
+       THEN /\ val' = s.val /\ ver' = VerAfter(g, ver, SubSeq(Ev.o.order, 1, Ev.a.abort - 1))
+            /\ UNCHANGED << g, desc, seen, skip >>        \* (a panicking call is outside the heap rule)
+       ELSE /\ PrintT(<< "REJECT", l, Ev.ev >>)
+            /\ skip' = TRUE /\ UNCHANGED << g, desc, val, ver, seen >>
 TProcess ==
-  /\ Consume /\ Ev.ev = "process" /\ ~skip
+  /\ Consume /\ Ev.ev = "process" /\ ~Aborting /\ ~skip
   /\ LET s == ProcessResult IN
      IF s.ok
        THEN /\ val' = s.val /\ ver' = VerAfter(g, ver, Ev.o.order)
@@ -141,7 +165,7 @@ TUnknown ==
 TSkip == Consume /\ Ev.ev # "reset" /\ skip /\ UNCHANGED << g, desc, val, ver, seen, skip >>
 
 TraceInit == l = 1 /\ g = NoGraph /\ desc = << >> /\ val = << >> /\ ver = << >> /\ seen = {} /\ skip = TRUE
-TraceNext == TGraph \/ TProcess \/ THelper \/ TUnknown \/ TSkip
+TraceNext == TGraph \/ TProcess \/ TAbort \/ THelper \/ TUnknown \/ TSkip
 TraceSpec == TraceInit /\ [][TraceNext]_vars
 
 AllConsumed == IF TLCGet("stats").diameter - 1 = Len(Rec) THEN TRUE
